@@ -7,11 +7,11 @@ From SH Require Import gen.Extracted_calls_seqreg.
 Import ListNotations. Open Scope string_scope.
 
 Lemma calls_slot_new_ok : calls_slot_new =
-  ["mem::zeroed"; "mem::zeroed"; "libc::sigaction"; "Error::last_os_error"; "BTreeMap::new"].
+  ["mem::zeroed"; "mem::zeroed"; "libc::sigaction"; "return"; "Error::last_os_error"; "BTreeMap::new"].
 Proof. reflexivity. Qed.
 
 Lemma calls_prev_detect_ok : calls_prev_detect =
-  ["mem::zeroed"; "libc::sigaction"; "ptr::null"; "Error::last_os_error"].
+  ["mem::zeroed"; "libc::sigaction"; "ptr::null"; "return"; "Error::last_os_error"].
 Proof. reflexivity. Qed.
 
 Lemma calls_prev_execute_ok : calls_prev_execute =
@@ -51,7 +51,7 @@ Lemma calls_register_unchecked_ok : calls_register_unchecked =
 Proof. reflexivity. Qed.
 
 Lemma calls_register_unchecked_impl_ok : calls_register_unchecked_impl =
-  ["GlobalData::ensure"; "Arc::from"; ".write"; "SignalData::clone"; "ActionId"; ".entry"; "Entry::Occupied"; "assert!"; ".get_mut"; ".insert"; ".is_none"; "Entry::Vacant"; ".write"; ".store"; "Prev::detect"; "Slot::new"; ".insert"; ".insert"; ".store"].
+  ["GlobalData::ensure"; "Arc::from"; ".write"; "SignalData::clone"; "ActionId"; ".entry"; "Entry::Occupied"; "assert!"; ".get_mut"; ".insert"; ".is_none"; "Entry::Vacant"; ".write"; ".store"; "Prev::detect"; "?"; "Slot::new"; "?"; ".insert"; ".insert"; ".store"].
 Proof. reflexivity. Qed.
 
 Lemma calls_unregister_ok : calls_unregister =
